@@ -241,6 +241,19 @@ def run_case(c):
         for code, d in compare(exp, fo):
             cls = _classify(c, code)
             viol.append((f"C13:{tag}:{code}{cls}", f"{d} | {c} values={exp_vals[:5]}"))
+        # the rows themselves must be those of the data passed to this write, in the declared representation
+        hi = to if to is not None else len(exp_vals)
+        want_rows = [int(p).to_bytes(DTYPE_SIZES[exp_dtype], 'big') + bytes([k])
+                     for k, p in list(enumerate(to_pat(exp_dtype, exp_vals)))[frm:hi]]
+        got_rows = []
+        for _, r, _s in lf.records:
+            if not r.is_eflr and r.type == 0:
+                ref, pos = R.decode_obname(r.body, 0)
+                _n, pos = R.decode_uvari(r.body, pos)
+                got_rows.append(r.body[pos:])
+        if got_rows != want_rows:
+            viol.append((f"C13:{tag}:rows-differ", f"rows {[x.hex() for x in got_rows][:3]} != "
+                                                   f"{[x.hex() for x in want_rows][:3]} | {c}"))
         if c['second'] == 'dtype':
             # the channel's representation code must follow the data actually written
             co = [o for o in lf.objects('CHANNEL') if o.name.name == 'INDEX'][0]
